@@ -121,3 +121,4 @@ package dispatch
 //@ func torrentAccessWatcher.GetPieceReader
 //@   requires w != nil && w.Torrent != nil
 //@   ensures watched: result1 == nil ==> result0 != nil && dyntype(result0) == typeid(*pieceReaderCloseWatcher) && unbox(result0, *pieceReaderCloseWatcher).w == w
+//@   ensures index_in_torrent: result1 == nil ==> 0 <= piece && piece < w.Torrent.npieces
